@@ -21,7 +21,8 @@
 (* keeps what has been typed since the mode was entered: per key its code,   *)
 (* the modifiers held when it went down, and how many of the keys typed just *)
 (* before it were still down.  After each typed key:                         *)
-(*   EXACT  what was typed is a defined sequence (an O-(..) group: its keys   *)
+(*   EXACT  what was typed is a defined sequence and not also the beginning  *)
+(*          of another (an O-(..) group: its keys                            *)
 (*          in any order, all down before any of them goes up; S-(..): the   *)
 (*          modifier down throughout)                                        *)
 (*          => the mode is left and the virtual key is tapped exactly once   *)
@@ -86,7 +87,7 @@ MonInit(p) ==
                 IF L = {} THEN 1 ELSE CHOOSE x \in L : \A y \in L : x >= y
   IN [p |-> p,
       cs |-> cs,                 \* per definition: its permitted orders as code strings
-      win |-> maxlen + 3,
+      win |-> maxlen + (IF "slack" \in DOMAIN p THEN p.slack ELSE 8),    \* S2 window: presses that may arrive meanwhile
       sync |-> TRUE,             \* sharp zone
       pend |-> <<>>,             \* inputs (and virtual-key events) not yet processed, in order
       phys |-> {},               \* keys physically down (inputs seen)
@@ -100,13 +101,18 @@ MonInit(p) ==
       recent |-> <<>>,           \* soft zone only: the last key presses seen (codes), for S2
       err |-> ""]
 
+\* p.s2 = FALSE switches the soft-zone judgement (S2 on a window of key presses) off: used in the
+\* model-checking instances, where the window would multiply the state space
+C12S2On(m) == IF "s2" \in DOMAIN m.p THEN m.p.s2 ELSE TRUE
 VkOuts(m) == {m.p.defs[d].out : d \in DOMAIN m.p.defs}
 KeySet(m) == SeqToSet(m.p.keys)
 
 \* leaving the sharp zone: from here on only S2 is judged, on the key presses seen (those typed so far, then
 \* every further press); a virtual key that is already due stays due
-C12GoSoft(m) == [m EXCEPT !.sync = FALSE, !.pend = <<>>,
-                          !.recent = LET a == [i \in DOMAIN m.ty |-> m.ty[i].c] \o
+C12GoSoft(m) == [m EXCEPT !.sync = FALSE, !.pend = <<>>, !.act = FALSE, !.ty = <<>>, !.ttl = 0, !.held = {}, !.stale = {},
+                          !.owed = IF C12S2On(m) THEN @ ELSE {},
+                          !.recent = IF ~C12S2On(m) THEN <<>> ELSE
+                                     LET a == [i \in DOMAIN m.ty |-> m.ty[i].c] \o
                                               (LET q == SelectSeq(m.pend, LAMBDA x : x[1] = "d" /\ x[2] # m.p.ldr) IN
                                                [i \in DOMAIN q |-> q[i][2]])
                                      IN IF Len(a) > m.win THEN SubSeq(a, Len(a) - m.win + 1, Len(a)) ELSE a]
@@ -116,21 +122,21 @@ MonIn(m, r) ==
   ELSE IF r.e \notin {"d", "u"} THEN C12GoSoft(m)
   ELSE
     LET m1 == [m EXCEPT !.phys = IF r.e = "d" THEN @ \cup {r.c} ELSE @ \ {r.c},
-                        !.recent = IF ~m.sync /\ r.e = "d" /\ r.c # m.p.ldr
+                        !.recent = IF ~m.sync /\ C12S2On(m) /\ r.e = "d" /\ r.c # m.p.ldr
                                    THEN LET a == Append(@, r.c) IN
                                         IF Len(a) > m.win THEN SubSeq(a, Len(a) - m.win + 1, Len(a)) ELSE a
                                    ELSE @]
     IN IF ~m.sync THEN m1
        ELSE IF Len(m.pend) >= C12PendCap \/ (r.c # m.p.ldr /\ r.c \notin KeySet(m))
        THEN LET g == C12GoSoft(m1) IN
-            IF r.e = "d" /\ r.c # m.p.ldr THEN [g EXCEPT !.recent = Append(@, r.c)] ELSE g
+            IF C12S2On(m) /\ r.e = "d" /\ r.c # m.p.ldr THEN [g EXCEPT !.recent = Append(@, r.c)] ELSE g
        ELSE [m1 EXCEPT !.pend = Append(@, <<r.e, r.c>>)]
 
 \* ---- the reference step for one processed event -------------------------------------------
 \* result: [m, expK (typed-key downs expected on this tick, in order), expB (backspace taps),
 \*          expV ({} = no virtual key may go down; else exactly one down of a key in the set), soft]
 C12Enter(m) == [m EXCEPT !.act = TRUE, !.ty = <<>>, !.ttl = m.p.T]
-C12Leave(m) == [m EXCEPT !.act = FALSE]
+C12Leave(m) == [m EXCEPT !.act = FALSE, !.ty = <<>>, !.ttl = 0]
 TyCodes(m) == [i \in DOMAIN m.ty |-> m.ty[i].c]
 HiddenMode(m) == m.p.mode # "visible-backspaced"
 
@@ -155,7 +161,11 @@ C12Press(m0, c) ==
            codes == [i \in DOMAIN ty |-> ty[i].c]
            shown == IF vis THEN <<c>> ELSE <<>>
            mt == [m EXCEPT !.ty = ty, !.ttl = m.p.T]
-       IN IF ex # {}
+       IN IF ex # {} /\ pr # {}
+          \* a defined sequence, and the beginning of a longer one (possible with O-(..) groups although the
+          \* table is prefix-free): whether the shorter one fires now or when the keys go up is not documented
+          THEN [m |-> mt, expK |-> <<>>, expB |-> 0, soft |-> TRUE]
+          ELSE IF ex # {}
           THEN [m |-> [C12Leave(mt) EXCEPT !.owed = ex, !.pend = @ \o <<<<"vd", 0>>, <<"vu", 0>>>>,
                                            !.stale = @ \cup ({codes[i] : i \in DOMAIN codes} \cap m.held)],
                 expK |-> shown,
@@ -180,7 +190,7 @@ C12Leader(m) ==
 
 \* S2, everywhere: a virtual key goes down only for its own sequence
 C12Justified(m, o) ==
-  \E d \in DOMAIN m.p.defs : m.p.defs[d].out = o /\ (d \in m.owed \/ \E e \in m.cs[d] : C12IsSub(e, m.recent))
+  ~C12S2On(m) \/ \E d \in DOMAIN m.p.defs : m.p.defs[d].out = o /\ (d \in m.owed \/ \E e \in m.cs[d] : C12IsSub(e, m.recent))
 
 MonTick(m, out, idle, cb) ==
   IF m.err # "" THEN m
@@ -218,10 +228,14 @@ MonTick(m, out, idle, cb) ==
              m2 == st.m
              expire == m2.act /\ m2.ttl <= 1
              flush == IF expire /\ m2.p.mode = "hidden-delay-type" THEN TyCodes(m2) ELSE <<>>
-             m3 == IF expire THEN [C12Leave(m2) EXCEPT !.ttl = 0]
+             m3 == IF expire THEN C12Leave(m2)
                    ELSE IF m2.act THEN [m2 EXCEPT !.ttl = @ - 1] ELSE m2
              expK == st.expK \o flush
-         IN IF st.soft THEN C12GoSoft([m3 EXCEPT !.pend = m1.pend])
+         IN IF st.soft
+            THEN \* the key just processed belongs to the presses S2 looks at
+                 LET tyc == IF ev[1] = "d" /\ ev[2] # m.p.ldr
+                            THEN Append(m1.ty, [c |-> ev[2], mm |-> 0, h |-> 0, rel |-> FALSE]) ELSE m1.ty
+                 IN C12GoSoft([m3 EXCEPT !.pend = m1.pend, !.ty = tyc])
             \* ---- judgement of this tick's output
             ELSE IF st.vk /\ Len(vdowns) = 0
             THEN Fail(m3, "C12 S1: the typed sequence did not tap its virtual key")
